@@ -138,6 +138,20 @@ def _wrap_into_factory(nodes, entity_name, inner_factory_name,
       outer_factory_name=outer_factory_name)
 
 
+def _referenced_names(code):
+  """Names the code (or a function nested in it) refers to outside itself.
+
+  The namespace of a function is a snapshot: a global that is defined only after
+  the conversion is not in it, yet the generated wrappers enclose the user code
+  and must not capture such a name either.
+  """
+  names = set(code.co_names) | set(code.co_freevars)
+  for const in code.co_consts:
+    if isinstance(const, types.CodeType):
+      names |= _referenced_names(const)
+  return frozenset(names)
+
+
 class _PythonFnFactory(object):
   """Helper object that wraps a Python function factory."""
 
@@ -163,13 +177,14 @@ class _PythonFnFactory(object):
              namer,
              inner_factory_name='inner_factory',
              outer_factory_name='outer_factory',
-             future_features=()):
+             future_features=(),
+             reserved_names=()):
     """Initializes a function."""
     if self._unbound_factory is not None:
       raise ValueError('double initialization; create a new object instead')
 
-    inner_factory_name = namer.new_symbol(inner_factory_name, ())
-    outer_factory_name = namer.new_symbol(outer_factory_name, ())
+    inner_factory_name = namer.new_symbol(inner_factory_name, reserved_names)
+    outer_factory_name = namer.new_symbol(outer_factory_name, reserved_names)
     nodes = _wrap_into_factory(nodes, self._name, inner_factory_name,
                                outer_factory_name, self._freevars,
                                self._extra_locals.keys(), future_features)
@@ -345,7 +360,8 @@ class GenericTranspiler(object):
 
     namespace = inspect_utils.getnamespace(fn)
     namer = naming.Namer(namespace)
-    new_name = namer.new_symbol(self.get_transformed_name(node), ())
+    new_name = namer.new_symbol(
+        self.get_transformed_name(node), _referenced_names(fn.__code__))
     entity_info = transformer.EntityInfo(
         name=new_name,
         source_code=source,
@@ -481,7 +497,8 @@ class PyToPy(GenericTranspiler):
           factory = _PythonFnFactory(
               ctx.info.name, fn.__code__.co_freevars, self.get_extra_locals())
           factory.create(
-              nodes, ctx.namer, future_features=ctx.info.future_features)
+              nodes, ctx.namer, future_features=ctx.info.future_features,
+              reserved_names=_referenced_names(fn.__code__))
           self._cache[fn][cache_subkey] = factory
 
     transformed_fn = factory.instantiate(
